@@ -25,12 +25,12 @@ where
     }
 }
 
-fn seeds<Q>(b: &Bind<Q>, iu: usize) -> Vec<A>
+fn seeds<Q>(b: &Bind<Q>, iu: usize, t: crate::Tier) -> Vec<A>
 where
     Q: HasRefUnit + QB,
     Q::UnitType: LinearScaledUnit + UB,
 {
-    let mut s = amt::alphabet_v(tier());
+    let mut s = amt::alphabet_v(t);
     // boundary alphabet: amounts that denote in `iu` the same magnitude as 1 and 17.4 of every other unit
     for j in 0..b.n() {
         if j != iu {
@@ -52,9 +52,19 @@ where
     let n = b.n();
     let mut visited: HashSet<(usize, (i128, i32))> = HashSet::new();
     let mut frontier: Vec<(usize, A)> = Vec::new();
-    for a in seeds(&b, iu) {
+    // the quick alphabet is closed to the full depth; the additional values of the thorough alphabet are closed to
+    // depth 2 (a depth-3 closure from ~300 seeds per unit would be ~1e9 transitions)
+    let mut shallow: Vec<(usize, A)> = Vec::new();
+    for a in seeds(&b, iu, crate::Tier::Quick) {
         if visited.insert((iu, amt::key(a))) {
             frontier.push((iu, a));
+        }
+    }
+    if thorough() {
+        for a in seeds(&b, iu, crate::Tier::Thorough) {
+            if visited.insert((iu, amt::key(a))) {
+                shallow.push((iu, a));
+            }
         }
     }
     // special values take part in the exact clauses only (identity, unit, equiv == convert)
@@ -64,7 +74,24 @@ where
             frontier.push((iu, *a));
         }
     }
-    let seeds0 = frontier.clone();
+    let mut seeds0 = frontier.clone();
+    seeds0.extend(shallow.iter().copied());
+    // shallow seeds: levels 0 and 1 only
+    let mut sfrontier = shallow;
+    for level in 0..2 {
+        let mut next: Vec<(usize, A)> = Vec::new();
+        for &(i, a) in &sfrontier {
+            rep.inc("states");
+            for j in 0..n {
+                if let Some(ra) = transition::<Q>(&b, i, j, a, level, rep) {
+                    if level == 0 && amt::is_finite(ra) && visited.insert((j, amt::key(ra))) {
+                        next.push((j, ra));
+                    }
+                }
+            }
+        }
+        sfrontier = next;
+    }
     for level in 0..depth {
         let mut next: Vec<(usize, A)> = Vec::new();
         for &(i, a) in &frontier {
